@@ -48,7 +48,7 @@ fn gen(rng: &mut Rng, _idx: u64, _tier: Tier) -> Case {
     let n_faults = if rng.chance(0.1) { rng.range(8, 12) } else { rng.range(0, 5) };
     for _ in 0..n_faults {
         match rng.below(6) {
-            0 | 1 => conns.push(Conn::Refuse { kind: rng.pick(&["ConnectionRefused", "ConnectionRefused", "TimedOut", "HostUnreachable", "NetworkUnreachable", "AddrNotAvailable", "PermissionDenied"]).to_string() }),
+            0 | 1 => conns.push(Conn::Refuse { kind: rng.pick(&["ConnectionRefused", "ConnectionRefused", "TimedOut", "HostUnreachable", "NetworkUnreachable", "AddrNotAvailable", "PermissionDenied", "Interrupted", "WouldBlock", "ConnectionReset", "ConnectionAborted", "NotConnected", "InvalidInput", "Other", "NotFound", "AddrInUse", "BrokenPipe", "UnexpectedEof"]).to_string() }),
             2 => conns.push(Conn::Accept { ops: vec![Op::Eof { dt_us: rng.range(0, 2_000_000) }] }),
             3 => {
                 // accept + frames + close
@@ -81,6 +81,11 @@ fn gen(rng: &mut Rng, _idx: u64, _tier: Tier) -> Case {
             }
         }
     }
+    // now and then the feed stays down for a long time: a streak of failed attempts (a growing, shrinking or
+    // exhausted retry budget shows only here)
+    if rng.chance(0.06) {
+        for _ in 0..rng.range(15, 70) { conns.push(Conn::Refuse { kind: rng.pick(&["ConnectionRefused", "TimedOut", "HostUnreachable"]).to_string() }); }
+    }
     // healthy connection with fresh traffic from everybody, incl. an aircraft never heard before
     let n1 = rng.range(1, 30) as usize;
     let t1 = gen::traffic(rng, &mut acs, n1, d, kinds, false, true, 4_000_000);
@@ -109,7 +114,7 @@ fn end_badly(rng: &mut Rng, ops: &mut Vec<Op>, acs: &mut [gen::Ac]) {
         0 => ops.push(Op::Eof { dt_us: rng.range(0, 500_000) }),
         1 => ops.push(Op::Err { dt_us: 0, kind: "ConnectionReset".into() }),
         2 => ops.push(Op::Err { dt_us: rng.range(0, 30_000_000), kind: "TimedOut".into() }),
-        _ => ops.push(Op::Err { dt_us: 0, kind: rng.pick(&["BrokenPipe", "ConnectionAborted", "UnexpectedEof", "Other"]).to_string() }),
+        _ => ops.push(Op::Err { dt_us: 0, kind: rng.pick(&["BrokenPipe", "ConnectionAborted", "UnexpectedEof", "Other", "WouldBlock", "InvalidData", "NotConnected", "PermissionDenied", "OutOfMemory", "Unsupported"]).to_string() }),
     }
 }
 
